@@ -124,6 +124,16 @@ def cases(ctx):
                         thresh=rng.choice([1.0, 1.0, 0.5, 0.1]),
                         perturb=[rng.randint(1, 10 ** 6), rng.choice([0.1, 0.3, 0.7]), rng.choice([0, 30, 200])],
                         trace=5, dumplu=1, timeout=90, kind=kind))
+    # one worker stalls for about a second at its first pivot searches (a descheduled thread holding a busy panel): the worker that
+    # took the parent panel in pipelined mode must wait for the flag however long it takes
+    for k in range(4 if ctx.quick() else 16):
+        n = rng.randint(20, 50)
+        A = gen.matrix(rng, rng.choice(["banded", "chain", "diagdom"]), n)
+        cid += 1
+        out.append(dict(id=cid, driver="gstrf", m=A["n"], n=A["n"], colptr=A["colptr"], rowind=A["rowind"], vals=A["vals"],
+                        nrhs=1, rhs=[1.0] * A["n"], nprocs=2, colperm=0,
+                        ienv=[rng.choice([1, 2, 3]), rng.choice([1, 1, 2]), 200, 200, 100, -50, -50, -30], thresh=1.0,
+                        perturb=None, stall=[k % 2, 2, 1300000], trace=5, dumplu=1, timeout=90, kind="stall"))
     return out
 
 
@@ -209,7 +219,7 @@ def run(ctx):
             if bad is None and ntr % 3 == 0:
                 nseq += 1
                 bad = compare_seq(ctx, exe, c, r)
-        ctx.count(("tr", c["kind"], c["n"], tuple(c["rowind"][:40]), c["nprocs"], c["perturb"][0]), nontrivial=nontriv,
+        ctx.count(("tr", c["kind"], c["n"], tuple(c["rowind"][:40]), c["nprocs"], (c["perturb"] or c.get("stall") or [0])[0]), nontrivial=nontriv,
                   kind="trace-" + c["kind"])
         if bad:
             c2 = dict(c); r2 = {k: v for k, v in r.items() if k not in ("events", "L", "U")}
